@@ -151,9 +151,9 @@ Fixpoint guard_C17_zero_factor (s : src) : bool :=
 (* repetition-entry-state: the ghost flag of the translator model *)
 Definition guard_C17_repetition_entry_state (s : src) : bool := rep_stable_src s.
 
-(* Statement of round 1.  REFUTED in round 2 (Props.v C17_staircase_statement_refuted_...): its two guards do not exclude
-   dependency-key collisions by rounding and coefficients of non-enclosing loops.  The corrected statement (guards
-   guard_C17_zero_factor_depth, guard_C17_key_collision in SimDefs.v, same ghost flag) is PROVED as Props.v C17_staircase. *)
+(* Statement of round 1.  REFUTED in round 2 (Props.v C17_staircase_statement_refuted_resolution): its guards do not
+   exclude dependency-key collisions by rounding.  The corrected statement (guard_C17_key_collision in SimDefs.v; the two
+   guards below became vacuous with the repairs of the translator) is PROVED as Props.v C17_staircase. *)
 Definition C17_staircase_statement : Prop :=
   forall channels s fuel h t,
     src_wf channels s = true -> guard_C17_zero_factor s = true -> guard_C17_repetition_entry_state s = true ->
